@@ -34,7 +34,8 @@ REQUIRED = ["port_histories", "views_compared", "renames", "deletes",
             "features_refreshes", "early_port_status",
             "other_messages_sharing_a_request_xid", "views_read_inside_the_handler",
             "nexus_level_stats_events_compared", "port_views_of_two_connections_compared",
-            "parts_on_a_second_connection", "raw_replies_halted_on_the_nexus"]
+            "parts_on_a_second_connection", "raw_replies_halted_on_the_nexus",
+            "handshakes_completed_by_a_refused_barrier"]
 TIMEOUT = {"quick": 900, "thorough": 7200}
 
 REASON_ADD, REASON_DELETE, REASON_MODIFY = 0, 1, 2
@@ -133,7 +134,11 @@ def run_ports (case, rep):
     early_raw += ofwire.enc_message("port_status", dict(
       xid=0, reason=reason, desc=ctl.phy_port(n, name=nm, hw=hw, config=cfg,
                                               state=1 if cfg & 1 else 0)))
-  peer.handshake(case["dpid"], initial, early=early_raw)
+  # (a switch without barrier support ends the handshake with an error for
+  #  the barrier request: the early notifications are owed on that path too)
+  peer.handshake(case["dpid"], initial, early=early_raw,
+                 barrier="error" if case.get("barrier_refused") else "reply")
+  if case.get("barrier_refused"): rep.count("handshakes_completed_by_a_refused_barrier")
   con = peer.con
   original = {p["port_no"]: dict(p) for p in initial}
   model = {p["port_no"]: dict(p) for p in initial}
@@ -607,6 +612,7 @@ def gen_ports (rng, n, maxlen):
                 initial=initial, steps=steps)
     if early: case["early"] = early
     if rng.random() < 0.3: case["second_connection"] = True
+    if rng.random() < 0.25: case["barrier_refused"] = True
     yield case
 
 
